@@ -234,9 +234,16 @@ func c08Setup(t *Term) (*c08lit, []byte, int) {
 func c08(t *Term) string {
 	lit, raw, off := c08Setup(t)
 	f := text.NewFile("f", raw)
+	var early *text.Reader
+	if (len(raw)+off)%2 == 0 {
+		early = text.NewReader(f) // a reader created before the file is placed must follow its base offset
+	}
 	fs := parsley.NewFileSet(f) // sets the offset to 1 ...
 	f.SetOffset(off)            // ... so the offset under test is set afterwards
-	ctx := parsley.NewContext(fs, text.NewReader(f))
+	if early == nil {
+		early = text.NewReader(f)
+	}
+	ctx := parsley.NewContext(fs, early)
 	norm := bytes.Replace(raw, []byte("\r\n"), []byte("\n"), -1) // what NewFile keeps
 	var rx *regexp.Regexp
 	if lit.expr != "" {
